@@ -53,10 +53,12 @@ class LemmaSpec:
     yexpr: object = None
     branch: int = 0
     lawfn: object = None
+    matrix: object = None
+    sigma_conflicts: list = field(default_factory=list)
 
     @property
     def proof(self) -> str:
-        if self.kind in ("law-function", "inverse"):
+        if self.kind in ("law-function", "inverse", "matrix"):
             return "intros; vp_unlet; repeat split; c02_finish."
         return "intros; vp_unlet; " + "".join(f"try ({h}); " for h in self.hints) + "c02_finish."
 
@@ -72,13 +74,18 @@ class Ser:
         self.rc = sx.RCtx(atoms=False, float_mode="decimal", atom_hook=self.hook)
         self.uses_y = False
         self.yexpr = None        # a non-symbol sub-expression of the law the function solves for, e.g. sin(angle)
+        self.ymap = {}           # several unknowns (matrix laws): symbol -> let-bound name
 
     def hook(self, e, rc):
         if self.ysym is not None and e == self.ysym:
             self.uses_y = True
             return self.yname
-        if e.is_Symbol and e in self.sigma:
+        if e.is_Symbol and e in self.ymap:
+            return self.ymap[e]
+        if (e.is_Symbol or isinstance(e, sympy.Indexed)) and e in self.sigma:
             return rc.term(self.sigma[e])
+        if isinstance(e, sympy.Indexed):
+            return rc.var(("indexed", sympy.srepr(e)), e)
         if isinstance(e, SymQuantity):
             num = const_number(e)
             if num is not None:
@@ -211,6 +218,63 @@ def sigma_of(subs_log, law_symbols):
     return sig, multi
 
 
+def expected_sigma(ex, law_syms) -> dict:
+    """law symbol -> argument symbol as *declared*: `validate_input(x_=x_symbol)` names the law symbol an argument
+    stands for; failing that, a parameter `x_` stands for the module attribute `x`.  This declared correspondence
+    overrides the one recorded from the function's own subs() calls, so that a body substituting an argument for the
+    wrong (same-dimension) symbol is exposed instead of being mirrored by the obligation."""
+    outs = set()
+    for o in ex.specs.get("output", []):
+        try:
+            hash(o)
+            outs.add(o)
+        except Exception:  # pylint: disable=broad-except
+            pass
+    module = ex.module
+    names = {}
+    if module is not None:
+        for k, v in vars(module).items():
+            try:
+                if v in law_syms:
+                    names.setdefault(k, v)
+            except Exception:  # pylint: disable=broad-except
+                pass
+    exp = {}
+    spec_count = {}
+    for a in ex.args:
+        try:
+            spec_count[a.spec] = spec_count.get(a.spec, 0) + 1
+        except Exception:  # pylint: disable=broad-except
+            pass
+    for a in ex.args:
+        if a.kind != "scalar":
+            continue
+        e = None
+        try:
+            if a.spec is not None and a.spec in law_syms and a.spec not in outs and spec_count.get(a.spec) == 1:
+                e = a.spec
+        except Exception:  # pylint: disable=broad-except
+            e = None
+        if e is None:
+            cand = names.get(a.param.rstrip("_"))
+            if cand is not None and cand not in outs:
+                e = cand
+        if e is not None and e not in exp:
+            exp[e] = a.syms[0]
+    return exp
+
+
+def final_sigma(ex, b, law_syms):
+    """-> (sigma, multi, conflicts)"""
+    sigma, multi = sigma_of(b.subs_log, law_syms)
+    conflicts = []
+    for k, v in expected_sigma(ex, law_syms).items():
+        if k in sigma and sigma[k] != v and sigma[k].is_Symbol:
+            conflicts.append((str(k), str(sigma[k]), str(v)))
+            sigma[k] = v
+    return sigma, multi, conflicts
+
+
 def statement(ser: Ser, pre: list, F_text: str | None, post: list, goal: str) -> str:
     parts = []
     b = ser.binder()
@@ -239,8 +303,16 @@ def instantiate_structured(law, subs_log):
     symbol -> argument renaming and the solved-for unknown are still instantiated on the Coq side."""
     law1 = law
     used = False
+    index_syms = set()
+    for ind in law.atoms(sympy.Indexed):
+        for i in ind.indices:
+            index_syms |= i.free_symbols
     for k, v in subs_log:
         if not isinstance(k, sympy.Basic):
+            continue
+        if k in index_syms and law1.has(k):
+            law1 = law1.subs(k, v)
+            used = True
             continue
         if isinstance(k, (AppliedUndef, sympy.Derivative, sympy.Integral)) or getattr(k, "is_Function", False) and not k.is_Symbol:
             try:
@@ -263,7 +335,8 @@ def build_simple(ex, bi: int, law_name: str, law) -> LemmaSpec:
     if not isinstance(law, sympy.Eq):
         raise NotHandled(f"law is a {type(law).__name__}")
     kind = "simple"
-    if any(isinstance(a, (AppliedUndef, sympy.Derivative, sympy.Integral)) for a in sympy.preorder_traversal(law)):
+    if any(isinstance(a, (AppliedUndef, sympy.Derivative, sympy.Integral, sympy.Indexed, sympy.Sum, sympy.Product))
+            for a in sympy.preorder_traversal(law)):
         law1 = instantiate_structured(law, b.subs_log)
         if law1 is None or not isinstance(law1, sympy.Eq):
             raise NotHandled("law is stated with functions / derivatives / integrals and the function body does not "
@@ -272,10 +345,17 @@ def build_simple(ex, bi: int, law_name: str, law) -> LemmaSpec:
         kind = "structured"
     applied = sorted(law.atoms(AppliedUndef), key=str)
     for a in sympy.preorder_traversal(law):
-        if isinstance(a, STRUCTURED) and not isinstance(a, AppliedUndef):
+        if isinstance(a, STRUCTURED) and not isinstance(a, (AppliedUndef, sympy.Indexed)):
             raise NotHandled(f"law contains {type(a).__name__}")
-    law_syms = {s for s in law.free_symbols if not isinstance(s, SymQuantity)}
-    sigma, multi = sigma_of(b.subs_log, law_syms)
+    indexed = law.atoms(sympy.Indexed)
+    labels = set()
+    for ind in indexed:
+        labels |= ind.base.free_symbols
+        for i in ind.indices:
+            if i.free_symbols:
+                raise NotHandled("law contains an indexed symbol with a symbolic index after instantiation")
+    law_syms = {s for s in law.free_symbols if not isinstance(s, (SymQuantity, sympy.Indexed)) and s not in labels} | indexed
+    sigma, multi, conflicts = final_sigma(ex, b, law_syms)
     if multi:
         raise NotHandled("law instantiated more than once with different arguments")
     rest = law_syms - set(sigma)
@@ -333,7 +413,7 @@ def build_simple(ex, bi: int, law_name: str, law) -> LemmaSpec:
     st = statement(ser, dedup(pre + pre_side), F_text, dedup(post_side), f"{lhs} = {rhs}")
     hints = sqrt_hints(ser, F, law, sigma, ysym) if ysym is not None else []
     return LemmaSpec(name, st, ex.key, kind, y=str(ysym if yexpr is None else yexpr), sigma=sigma, F=F, law=law, exception=exc,
-        var_origin=dict(ser.rc.origin), cond_exprs=conds, hyps=dedup(pre + pre_side) + dedup(post_side), hints=hints, ysym=ysym, yexpr=yexpr, branch=bi)
+        var_origin=dict(ser.rc.origin), cond_exprs=conds, hyps=dedup(pre + pre_side) + dedup(post_side), hints=hints, ysym=ysym, yexpr=yexpr, branch=bi, sigma_conflicts=conflicts)
 
 
 def _mentions(t: str, name: str) -> bool:
@@ -443,6 +523,102 @@ def build_lawfn(ex, bi: int) -> LemmaSpec:
     return sp
 
 
+def _flat_result(kind, val):
+    if kind == "scalar":
+        return [val]
+    out = []
+    for v in val:
+        if isinstance(v, tuple) and len(v) == 2 and isinstance(v[0], str):
+            out += _flat_result(*v)
+        else:
+            out.append(sympy.sympify(v))
+    return out
+
+
+def build_matrix(ex, bi: int, law_name: str, law) -> LemmaSpec:
+    """Matrix laws solved for several unknowns, result returned as a (nested) tuple: every entry of the matrix
+    equation must hold with the unknowns let-bound to the returned components."""
+    import itertools  # pylint: disable=import-outside-toplevel
+    import random  # pylint: disable=import-outside-toplevel
+    b = ex.branches[bi]
+    try:
+        L_ = sympy.Matrix(law.lhs.doit() if hasattr(law.lhs, "doit") else law.lhs)
+        R_ = sympy.Matrix(law.rhs.doit() if hasattr(law.rhs, "doit") else law.rhs)
+    except Exception as e:  # pylint: disable=broad-except
+        raise NotHandled(f"matrix law not explicit: {type(e).__name__}") from e
+    if L_.shape != R_.shape:
+        raise NotHandled("matrix law with different shapes")
+    entries = list(zip(list(L_), list(R_)))
+    unknowns = []
+    for _eq, targets in b.solve_log:
+        for t in targets:
+            for u in (t if isinstance(t, (list, tuple)) else [t]):
+                if isinstance(u, sympy.Symbol) and u not in unknowns:
+                    unknowns.append(u)
+    Fs = _flat_result(b.result_kind, b.result)
+    if not unknowns or len(unknowns) != len(Fs):
+        raise NotHandled(f"{len(unknowns)} unknowns but {len(Fs)} returned components")
+    law_syms = set().union(*[(l.free_symbols | r.free_symbols) for l, r in entries])
+    law_syms = {x for x in law_syms if not isinstance(x, SymQuantity)}
+    sigma, multi = sigma_of(b.subs_log, law_syms - set(unknowns))
+    rest = law_syms - set(sigma) - set(unknowns)
+    if multi or rest:
+        raise NotHandled(f"law symbols neither substituted nor solved for: {sorted(map(str, rest))[:4]}")
+    # which returned component is which unknown: proposed numerically, then verified by Coq
+    argsyms = sorted({x for a in ex.args for x in a.syms}, key=str)
+    rnd = random.Random(ex.key)
+    pt = {x: sympy.Rational(rnd.randint(2, 97), rnd.randint(2, 13)) for x in argsyms}
+    consts = set().union(*[f.atoms(SymQuantity) for f in Fs]) | set().union(*[(l.atoms(SymQuantity) | r.atoms(SymQuantity)) for l, r in entries])
+    for q in consts:
+        pt[q] = sympy.Rational(rnd.randint(2, 97), rnd.randint(2, 13))
+    fvals = [sympy.N(f.xreplace(pt), 30) for f in Fs]
+    perm_ok = None
+    perms = [tuple(range(len(Fs)))] + [p for p in itertools.permutations(range(len(Fs))) if p != tuple(range(len(Fs)))][:119]
+    for perm in perms:
+        ymap = {u: fvals[perm[i]] for i, u in enumerate(unknowns)}
+        good = True
+        for l, r in entries:
+            d = sympy.N((l - r).xreplace(ymap).xreplace(sigma).xreplace(pt), 30)
+            sc = abs(sympy.N(l.xreplace(ymap).xreplace(sigma).xreplace(pt), 30)) + abs(sympy.N(r.xreplace(ymap).xreplace(sigma).xreplace(pt), 30)) + 1
+            if not abs(d) <= 1e-20 * sc:
+                good = False
+                break
+        if good:
+            perm_ok = perm
+            break
+    if perm_ok is None:
+        perm_ok = tuple(range(len(Fs)))
+    name = "calc_" + sanitize(ex.key) + (f"_b{bi}" if len(ex.branches) > 1 else "")
+    ser = Ser(sigma, None)
+    pre, conds = [], []
+    for a in ex.args:
+        for x in a.syms:
+            pre += assumption_hyps(x, ser.term(x))
+            conds += assumption_conds(x, x)
+    for k in sorted(sigma, key=str):
+        pre += assumption_hyps(k, ser.term(sigma[k]))
+        conds += assumption_conds(k, sigma[k])
+    for rel, taken in b.path:
+        pre.append(rel_text(ser, rel, taken))
+        conds.append(rel if taken else sympy.Not(rel))
+    ftexts = [ser.term(Fs[perm_ok[i]]) for i in range(len(unknowns))]
+    pre_side = ser.rc.hyps()
+    ser.ymap = {u: f"y{i}" for i, u in enumerate(unknowns)}
+    goals = [f"{ser.term(l)} = {ser.term(r)}" for l, r in entries]
+    post_side = ser.rc.hyps()[len(pre_side):]
+    for nme, o in ser.rc.origin.items():
+        if isinstance(o, SymQuantity) and o.is_positive:
+            pre.append(f"0 < {nme}")
+    bnd = ser.binder()
+    lets = "".join(f"let y{i} := {t} in\n  " for i, t in enumerate(ftexts))
+    st = (f"forall {bnd}, " if bnd else "") + "\n  " + "".join(h + " ->\n  " for h in dedup(pre + pre_side)) + lets \
+        + "".join(h + " ->\n  " for h in dedup(post_side)) + " /\\\n  ".join(goals)
+    sp = LemmaSpec(name, st, ex.key, "matrix", y=",".join(map(str, unknowns)), sigma=sigma, F=Fs, law=law,
+        var_origin=dict(ser.rc.origin), cond_exprs=conds, hyps=dedup(pre + pre_side), branch=bi)
+    sp.matrix = (entries, unknowns, perm_ok)
+    return sp
+
+
 def build(ex, bi: int) -> LemmaSpec:
     """Dispatch on the shape of the law the function body refers to."""
     if not ex.laws:
@@ -456,6 +632,8 @@ def build(ex, bi: int) -> LemmaSpec:
                 errs.append(f"{name}: {e}")
         raise NotHandled("several equations referenced; " + "; ".join(errs)[:300])
     name, law = ex.laws[0]
+    if isinstance(law, sympy.Eq) and (getattr(law.lhs, "is_Matrix", False) or getattr(law.rhs, "is_Matrix", False)):
+        return build_matrix(ex, bi, name, law)
     return build_simple(ex, bi, name, law)
 
 
@@ -476,6 +654,20 @@ def spec_predicate(sp: LemmaSpec, env: dict, got, rel=1e-9):
             scale = max([abs(complex(x)) for x in vals] + [abs(complex(x)) for x in g] + [0.0])
             ok = all(abs(complex(x) - complex(y)) <= rel * scale + 1e-300 for x, y in zip(g, vals))
         return ("ok" if ok else "fail", {"lhs": g, "rhs": vals, "law_function": _fname})
+    if sp.kind == "matrix":
+        entries, unknowns, perm = sp.matrix
+        flat = N._flatten(got)  # pylint: disable=protected-access
+        if len(flat) != len(unknowns):
+            return ("fail", {"why": "number of returned components"})
+        ymap = {u: sympy.sympify(flat[perm[i]]) for i, u in enumerate(unknowns)}
+        worst = None
+        for l, r in entries:
+            a = N.numeric(l.xreplace(ymap).xreplace(sp.sigma), env)
+            b_ = N.numeric(r.xreplace(ymap).xreplace(sp.sigma), env)
+            scale = max(N.term_scale(l.xreplace(ymap).xreplace(sp.sigma), env), N.term_scale(r.xreplace(ymap).xreplace(sp.sigma), env))
+            if abs(complex(a) - complex(b_)) > rel * scale + 1e-300:
+                worst = {"lhs": a, "rhs": b_, "scale": scale}
+        return ("ok", {}) if worst is None else ("fail", worst)
     if isinstance(got, (list, tuple)):
         return ("skipped", "non-scalar result")
     if sp.exception == "ceiling":
